@@ -242,3 +242,254 @@ def c18_special(pid, prop, tier, seed, b):
         if d:
             disagreements.append((c, d))
     return cases, impl_lines, failures, disagreements, dict(problems=problems)
+
+
+# ------------------------------------------------------------------ C17 seqls
+
+def gen_tree(rng, aliased=False):
+    """a random directory tree: returns (dirs, files, links) as relative paths;
+    links = {path: target_dir_relpath}"""
+    dirs, files, links = ['.'], {}, {}
+    def add_files(d):
+        for _ in range(rng.randint(0, 3)):
+            k = rng.random()
+            if k < 0.6:
+                b = rng.choice(['foo.', 'bar_', 'img.', 's'])
+                e = rng.choice(['.exr', '.jpg', '.tar.gz'])
+                w = rng.choice([1, 4])
+                for v in rng.sample(range(0, 30), rng.randint(1, 5)):
+                    files.setdefault(d, []).append(b + str(v).rjust(w, '0') + e)
+            elif k < 0.85:
+                files.setdefault(d, []).append(rng.choice(['readme.txt', 'notes', 'a.b.c', 'x.tar.gz']))
+            else:
+                files.setdefault(d, []).append(rng.choice(['.hidden', '.hid.0001.exr', '.DS_Store']))
+        if d in files:
+            files[d] = sorted(set(files[d]))
+    def grow(d, depth):
+        add_files(d)
+        if depth >= 4:
+            return
+        for i in range(rng.choice([0, 1, 1, 2, 3, 6] if depth == 0 else [0, 0, 1, 2])):
+            name = rng.choice(['sub', 'shots', 'v', 'a', 'b', 'empty']) + str(i)
+            if rng.random() < 0.15:
+                name = '.' + name
+            p = name if d == '.' else d + '/' + name
+            dirs.append(p)
+            if not name.startswith('empty'):
+                grow(p, depth + 1)
+    grow('.', 0)
+    cands = [d for d in dirs if d != '.']
+    used = set()
+    for _ in range(rng.choice([0, 0, 1, 2])):
+        if not cands:
+            break
+        tgt = rng.choice(cands + (['.'] if aliased else []))
+        if tgt in used and not aliased:
+            continue
+        parent = rng.choice(dirs)
+        if not aliased and (tgt == parent or tgt.startswith(parent + '/') and False):
+            pass
+        name = ('.' if rng.random() < 0.1 else '') + 'lnk%d' % len(links)
+        p = name if parent == '.' else parent + '/' + name
+        # for the exact-listing runs avoid links that point to an ancestor (cycles) unless aliased
+        if not aliased and (parent == tgt or parent.startswith(tgt + '/') or tgt == '.'):
+            continue
+        links[p] = tgt
+        used.add(tgt)
+    return dirs, files, links
+
+
+def build_tree(root, dirs, files, links):
+    for d in dirs:
+        os.makedirs(os.path.join(root, d), exist_ok=True)
+    for d, fs in files.items():
+        for f in fs:
+            open(os.path.join(root, d, f), 'w').close()
+    for p, tgt in links.items():
+        os.symlink(os.path.abspath(os.path.join(root, tgt)), os.path.join(root, p))
+
+
+def hidden_name(p):
+    n = os.path.basename(p)
+    return len(n) > 1 and n != '..' and n.startswith('.')
+
+
+def expected_jobs(flags, args, dirs, files, links):
+    """the directory paths (as spelled) whose listing seqls must print, and the pattern arguments;
+    written from the property's words: non-hidden dirs reachable from each root, following each
+    directory link whose target has not been followed yet"""
+    dirset = set(dirs)
+    children = {}
+    for d in dirs:
+        if d != '.':
+            children.setdefault(os.path.dirname(d) or '.', []).append(('D', os.path.basename(d), d))
+    for p, tgt in links.items():
+        children.setdefault(os.path.dirname(p) or '.', []).append(('L', os.path.basename(p), tgt))
+    seen_args, jobs, pats = [], [], []
+    roots = []
+    for a in args:
+        c = props.go_clean(a)
+        if c in seen_args:
+            continue
+        seen_args.append(c)
+        real = c
+        if real in dirset:
+            roots.append(c)
+        elif real in links:
+            roots.append(c)        # a link given as an argument is a directory for Stat
+        elif any(c == (d + '/' + f if d != '.' else f) for d, fs in files.items() for f in fs):
+            continue                # an existing file argument is ignored
+        else:
+            pats.append(c)
+    if 'r' not in flags:
+        return [(r, links.get(r, r)) for r in roots], pats
+    cache = set()
+    def real_of(spelled_parent_real, name):
+        return name if spelled_parent_real == '.' else spelled_parent_real + '/' + name
+    def walk_children(spelled, real):
+        for kind, name, tgt in sorted(children.get(real, []), key=lambda x: x[1]):
+            sp = name if spelled == '.' else spelled + '/' + name
+            if kind == 'D':
+                visit(sp, real_of(real, name))
+            else:
+                first = tgt not in cache
+                if first:
+                    cache.add(tgt)
+                if 'a' not in flags and hidden_name(sp):
+                    continue
+                jobs.append((sp, tgt))
+                if first:
+                    walk_children(sp, tgt)
+    def visit(spelled, real):
+        if 'a' not in flags and hidden_name(spelled):
+            return
+        jobs.append((spelled, real))
+        walk_children(spelled, real)
+    for r in roots:
+        visit(r, links.get(r, r))
+    return jobs, pats
+
+
+def c17_special(pid, prop, tier, seed, b):
+    rng = random.Random(seed * 1000003 + 17)
+    ok, msg = go_build('./cmd/seqls', V + '/bin/seqls', tags='verif')
+    if not ok:
+        return [], [], [], [], dict(problems=[('go-build', 'seqls does not build: ' + msg)])
+    root = infra.disk_root()
+    ntrees = 25 if tier == 'quick' else 400
+    cases, failures, disagreements, impl_lines = [], [], [], []
+    runs = []
+    for t in range(ntrees):
+        aliased = (t % 5 == 4)
+        dirs, files, links = gen_tree(rng, aliased)
+        troot = '%s/t%d' % (root, t)
+        os.makedirs(troot)
+        build_tree(troot, dirs, files, links)
+        for v in range(3 if tier == 'quick' else 6):
+            flags = ''.join(f for f in 'ras1f' if rng.random() < (0.7 if f == 'r' else 0.35))
+            nargs = rng.choice([0, 1, 1, 2, 3])
+            args = []
+            for _ in range(nargs):
+                k = rng.random()
+                if k < 0.6:
+                    args.append(rng.choice(dirs))
+                elif k < 0.7:
+                    args.append('./' + rng.choice(dirs))
+                elif k < 0.8:
+                    args.append('nosuchdir%d' % rng.randint(0, 9))
+                elif k < 0.9 and files:
+                    d = rng.choice(list(files.keys()))
+                    args.append((d + '/' if d != '.' else '') + rng.choice(['foo.#.exr', 'bar_@.jpg', 'img.@@@@.tar.gz', 'nope.#.exr', 'foo.%04d.exr']))
+                else:
+                    args.append(rng.choice(['missing/foo.#.exr', '..', '.']))
+            args = [a for a in args if a != '..'] if rng.random() < 0.9 else args
+            gmp = rng.choice(['1', '2', '16'])
+            workers = rng.choice(['1', '2', '50'])
+            runs.append(dict(t=t, troot=troot, dirs=dirs, files=files, links=links, flags=flags, args=args, gmp=gmp,
+                             workers=workers, aliased=aliased))
+    # expected lines from the library (godriver diskx / findseqx), per run
+    def opts_of(flags):
+        o = []
+        if 'a' in flags:
+            o.append(0)
+        if 's' not in flags:
+            o.append(1)
+        if '1' in flags:
+            o.append(2)
+        return o
+
+    def run_seqls(r):
+        cmd = [V + '/bin/seqls']
+        for f in r['flags']:
+            cmd.append({'r': '-r', 'a': '-a', 's': '-s', '1': '--hash1', 'f': '-f'}[f])
+        cmd += r['args']
+        env = dict(os.environ, GOMAXPROCS=r['gmp'], VERIF_SEQLS_WORKERS=r['workers'])
+        outs = []
+        for rep in range(2):
+            try:
+                p = subprocess.run(cmd, cwd=r['troot'], stdout=subprocess.PIPE, stderr=subprocess.PIPE, env=env, timeout=60)
+                outs.append(sorted(x for x in p.stdout.decode('latin-1').split('\n') if x != ''))
+            except subprocess.TimeoutExpired:
+                outs.append(None)
+        return outs
+
+    import concurrent.futures
+    with concurrent.futures.ThreadPoolExecutor(max_workers=8) as ex:
+        results = list(ex.map(run_seqls, runs))
+    # library answers, one godriver per tree root (cwd matters for relative paths)
+    for r, outs in zip(runs, results):
+        args = r['args'] or ['.']
+        jobs, pats = expected_jobs(r['flags'], args, r['dirs'], r['files'], r['links'])
+        glines = [line('diskx', ','.join(map(str, opts_of(r['flags']))), sp) for sp, real in jobs]
+        glines += [line('findseqx', ','.join(map(str, opts_of(r['flags']))), p) for p in pats]
+        r['glines'] = glines
+    by_root = collections.OrderedDict()
+    for r in runs:
+        by_root.setdefault(r['troot'], []).append(r)
+    for troot, rs in by_root.items():
+        all_lines = [l for r in rs for l in r['glines']]
+        if all_lines:
+            inp = ('\n'.join(all_lines) + '\n').encode('latin-1')
+            p = subprocess.run([V + '/bin/godriver'], input=inp, stdout=subprocess.PIPE, cwd=troot,
+                               env=dict(GOENV, VERIF_RX=infra.WORK + '/rx_patterns.txt'))
+            outl = p.stdout.decode('latin-1').split('\n')
+        else:
+            outl = []
+        k = 0
+        for r in rs:
+            exp = []
+            for _ in r['glines']:
+                o = outl[k] if k < len(outl) else 'NOOUTPUT'
+                k += 1
+                if o.startswith('OK'):
+                    exp += [unhx(x).decode('latin-1') for x in o.split(' ')[1:]]
+            if 'f' in r['flags']:
+                exp = [x if x.startswith('/') else os.path.normpath(os.path.join(r['troot'], x)) for x in exp]
+            r['expected'] = sorted(exp)
+    for r, outs in zip(runs, results):
+        text = 'seqls -%s %r  GOMAXPROCS=%s workers=%s tree: %d dirs %d links%s' % (
+            r['flags'], r['args'], r['gmp'], r['workers'], len(r['dirs']), len(r['links']), ' (aliased/cyclic links)' if r['aliased'] else '')
+        c = dict(line='seqls#%d' % len(cases), text=text, shape='flags:' + (r['flags'] or 'none') + (':aliased' if r['aliased'] else ''),
+                 meta=dict(flags=r['flags'], args=r['args'], dirs=r['dirs'], files=r['files'], links=r['links'], gmp=r['gmp'], workers=r['workers']),
+                 nontrivial=len(r['dirs']) > 1, args=r['args'], op='seqls')
+        cases.append(c)
+        f = []
+        if outs[0] is None or outs[1] is None:
+            f.append('seqls did not terminate within 60 s')
+            impl_lines.append('TIMEOUT')
+            failures.append((c, f))
+            continue
+        impl_lines.append('OK')
+        c['impl'] = '\n'.join(outs[0])[:1500]
+        if not r['aliased']:
+            if outs[0] != outs[1]:
+                f.append('two runs printed different multisets of lines')
+            if outs[0] != r['expected']:
+                miss = [x for x in r['expected'] if x not in outs[0]]
+                extra = [x for x in outs[0] if x not in r['expected']]
+                f.append('printed lines differ from the listing of the selected directories: missing %r extra %r' % (miss[:3], extra[:3]))
+        if f:
+            failures.append((c, f))
+    for d in set(r['troot'] for r in runs):
+        shutil.rmtree(d, ignore_errors=True)
+    return cases, impl_lines, failures, disagreements, dict()
